@@ -157,6 +157,15 @@ fn check_unit_bound(ctx: &mut Ctx, inp: &Input, rname: &str, p: &[usize], ref_ke
     ctx.states += stats.runs;
     ctx.transitions += stats.runs;
     ctx.traces += stats.runs;
+    if let Some(sch) = &stats.result_diverged {
+        let scase = json!({"input": inp.name, "renumbering": rname, "set": rs_to_json(&t)["ops"], "schedule": sch});
+        ctx.violation("history-dependent", scase, "simplify returned two different results for the same input under the same schedule of its choice point: the result depends on the call history".into(), weight);
+        return;
+    }
+    if let Some(why) = &stats.unreplayable {
+        ctx.add("inputs_not_replayable", 1);
+        ctx.cap_hit(format!("G3 could not enumerate deviations for {} ({}): {}; only the schedules visited before count", inp.name, rname, why));
+    }
     ctx.add(&format!("schedules_bound{}_chambers{:04}", bound, t.n), stats.runs as i64);
     ctx.max("choice_points_max", stats.choice_points_max as i64);
     ctx.max("alternatives_max", stats.alternatives_max as i64);
